@@ -68,7 +68,9 @@ def lit2_catalogue_literals(ctx):
     tabs = seeds.get('_meta_tables', set())
     ctx.require(cols and tabs, 'LIT-2: Table::new does not seed the catalogue tables (%s)' % seeds)
     # readers
-    sq = ast.fn('InnerLocustDB::schedule_query_column_names', 'scheduler/inner_locustdb.rs')
+    # with the same-file helpers it calls (the task is built in a helper shared by the scheduling and
+    # the inline variant)
+    sq = ast.fn_closure('InnerLocustDB::schedule_query_column_names', 'scheduler/inner_locustdb.rs')
     R = set()
     for c in find(sq, 'call'):
         if c.get('func') and (c['func'].get('path') or '').endswith('Query::read_column'):
